@@ -269,6 +269,7 @@ type track struct {
 	Batch    bool     // built for the running concurrent round, not yet judged
 	Round    int      // concurrent round (1-based) that last submitted it
 	Loc      string   // where it was after the previous operation: "" good utxo spec future committed
+	Injected bool     // submitted from inside a commit (at its pool-lock point): first seen pooled after that commit
 }
 
 type opRec struct {
@@ -288,6 +289,7 @@ type world struct {
 	wc         *warmChain
 	g          *chainkit.Genesis
 	N, E       *chainkit.Node
+	inj        *injectingPool // the application's pool handle of N, with the commit-lock-point hook (sequential lane only)
 	pc         poolCfg
 	lastCommit *types.Commit
 	wallets    []*chainkit.UWallet
